@@ -192,7 +192,14 @@ def selftest():
 
 # ----------------------------------------------------------------------------- reference
 
+_CTC_TEXT = {}
+
+
 def _ctc_name(s):
+    """Constraint listings hold str(constraint); map the text back to the constraint's name through
+    the library's own str() of the analysed model's constraints (no assumption on its format)."""
+    if s in _CTC_TEXT:
+        return _CTC_TEXT[s]
     m = re.match(r'^\((.*?)\) ', s)
     return m.group(1) if m else s
 
@@ -282,6 +289,10 @@ def check_report(res, model, fm, out, expected_names):
         return
     rec = {r['name']: r for r in res}
     exp, scalars, logical = expected(model)
+    _CTC_TEXT.clear()
+    if fm is not None:
+        for c in fm.get_constraints():
+            _CTC_TEXT[str(c)] = c.name
     for name, r in rec.items():
         val, size, ratio = r.get('result'), r.get('size'), r.get('ratio')
         if isinstance(val, list) and size is not None and size != len(val):
